@@ -13,7 +13,9 @@ RULE = ("random histories of up to 30 ops on the real RollingFileAppender: trigg
         "(names -> gunzipped bytes) and every policy consultation is compared with the model; independently the files "
         "read oldest archive..active must be a suffix of the acknowledged records cut at a record boundary with file "
         "boundaries on record boundaries, nothing missing while rotations <= count. Window patterns carry the index in the file name, "
-        "in a directory component and the file name, or in a directory component only. "
+        "in a directory component and the file name, or in a directory component only; a quarter of the window rollers keep "
+        "their archives on ANOTHER file system (a symlinked directory on /dev/shm or /tmp: rename is refused with EXDEV, so "
+        "move_file's copy+delete fall-back and cross-mount compression run). "
         "HOT RESTART family (150 quick / 2500 thorough): a second appender is built on the same path while the old "
         "instance keeps acknowledging records (ops: hot restart, append through the old instance, drop old), with a "
         "scripted trigger that never fires while two instances are alive; the model sees one O_APPEND stream; the "
@@ -202,7 +204,7 @@ def gen_trigger(rng, big):
 def gen_roller(rng):
     if rng.chance(1, 5):
         return [0]
-    return [1, rng.choice([0, 1, 7]), rng.choice([0, 1, 1, 2, 2, 3, 4]), rng.below(2), rng.choice([0, 0, 0, 1, 1, 2]), 0]
+    return [1, rng.choice([0, 1, 7]), rng.choice([0, 1, 1, 2, 2, 3, 4]), rng.below(2), rng.choice([0, 0, 0, 1, 1, 2, 3, 3]), 0]
 
 
 def cases(rng, tier):
